@@ -33,8 +33,8 @@ def voterIds (c : Config) : List Nat := (c.members.filter (·.2)).map (·.1)
 def memberIds (c : Config) : List Nat := c.members.map (·.1)
 /-- `hasQuorum(count)`: `count > voters/2`. -/
 def hasQuorum (c : Config) (count : Nat) : Bool := decide (count > c.voters / 2)
-/-- `isSingleServerCluster`. -/
-def isSingle (c : Config) (self : Nat) : Bool := c.members.length == 1 && c.isVoter self
+/-- `isSingleServerCluster`: this node is the only voter (non-voters may exist). -/
+def isSingle (c : Config) (self : Nat) : Bool := c.voters == 1 && c.isVoter self
 end Config
 
 /-- `LogEntry` of log.go. `data` is an opaque payload token for operations; a
